@@ -79,6 +79,8 @@ def run_c10(prop, tier, seed, replay=None):
         # two Readers on the same piece, with an eviction in between: a withdrawal must be of what was registered
         scen += [{"kind": "tworeaders", "steps": [], "id": len(scen) + k} for k in range(3 if tier == "quick" else 40)]
         scen += [{"kind": "twoblocked", "steps": [], "id": len(scen) + k} for k in range(4 if tier == "quick" else 40)]
+        # the torrent's own finalisation path (TorData -> finalisePiece -> Have), last block reported more than once, corrupt then good data
+        scen += [{"kind": "finalise", "steps": [], "id": len(scen) + k} for k in range(6 if tier == "quick" else 60)]
         for k, (off, ln) in enumerate(READER_RANGES):
             r = run_tlc("MCReader", "Reader_sim%d.cfg" % (k + 1), workers=1, simulate=8 if tier == "quick" else 100, depth=17, seed=seed + k, timeout=1800)
             require_ok(r, "Reader simulation %d" % k)
